@@ -39,7 +39,7 @@ def split_case(nums):
 class C11(flow.Spec):
     prop = 'C11'
     props_files = ['theories/Props/C11.v', 'theories/Props/C11_examples.v']
-    model_targets = ['theories/Aml/RunC11.vo']
+    model_targets = ['theories/Aml/RunC11.vo', 'theories/Aml/C11Witness.vo']
     pkg = 'device/acpi/aml'
     harness = [os.path.join(H, 'zz_verif_c11_test.go'), os.path.join(H, 'zz_verif_amlcommon_test.go')]
     test = 'TestVerifC11$'
@@ -54,13 +54,26 @@ class C11(flow.Spec):
                    'the block extent of If/Else/While is not part of the compared namespace view (the first pass attaches only the predicate and '
                    'the first statement to an If outside a deferred block; the property text does not cover control-flow structure)',
                    'null targets are dropped from the compared view (inside deferred blocks the parser does not represent them)']
-    partial = []
+    partial = ['C11_lex_roundtrip_* are FULL (PkgLength in all four widths, numbers, strings, every name form, every opcode of the generated maps)',
+               'C11_full_parse_encode (the full statement, Props/C11.v) is NOT proved and is in fact FALSE for the current parser: '
+               'C11_parse_encode_refuted exhibits one well-formed program per known finding on which the faithful model rejects the table or '
+               'builds another namespace. No parse_encode_partial over a grammar fragment is proved: outside the lexical level the statement '
+               'is TESTED, not proved - by the correspondence (Python encoder = Coq encode, Python ns = Coq ns, wf_program accepts every generated '
+               'program, model parser = real parser incl. the Coq namespace view = the harness view) and by the monitor on the real parser',
+               'productions inside the tested fragment: DefScope (incl. Scope(\\)), Device, Processor, PowerRes, ThermalZone, Method (0-7 args, nested names), Name, '
+               'OpRegion, Field / IndexField / BankField with Named / Reserved / Access / ExtAccess / Connection(name|buffer) elements, Mutex, Event, '
+               'Zero/One/Ones/Byte/Word/DWord/QWord constants, strings, buffers (computed sizes), packages (nested), If / Else / While, 60 fixed-arity '
+               'operators with targets (null or not), name references, calls with nested and forward arguments, two-table loads']
 
     def gen_cases(self, rng, tier):
-        n = {'quick': 500, 'thorough': 12000, 'search': 1500}[tier]
+        n = {'quick': 320, 'thorough': 2500, 'search': 1000}[tier]
         out = []
+        cap = {'quick': 1700, 'thorough': 3000, 'search': 2000}[tier]   # the list-based pool of the model is quadratic
         for i in range(n):
-            prog = amlgen.gen_program(rng, small=(rng.random() < 0.35))
+            while True:
+                prog = amlgen.gen_program(rng, small=(rng.random() < 0.35))
+                if sum(len(b) for b in prog['bytes']) <= cap:
+                    break
             note = 'prog-%dt' % len(prog['bytes'])
             if prog['features']:
                 note = 'feature-%d' % prog['features']
